@@ -13,7 +13,7 @@ KEY_CUT = "handle-split-by-batch-cut"
 KEY_AFF = "stale-blocksbynode-after-affinity-move"
 
 # order of the booleans in Spec.diag_case
-PARTS = ["release", "grace", "handles", "lastblock", "grace-dump", "books-allocs", "books-bynode", "books-byhandle",
+PARTS = ["release", "grace", "handles", "lastblock+node-cleanup", "grace-dump", "books-allocs", "books-bynode", "books-byhandle",
          "books-conf", "books-blocks", "books-blocksbynode"]
 
 
@@ -44,9 +44,9 @@ def classify(line):
     tags = line.get("tags", [])
     if failing == {"handles"}:
         return KEY_SPLIT
-    if failing <= {"books-blocksbynode", "lastblock"} and ("affinity-moved" in tags or "affinity-to-other" in tags):
+    if failing <= {"books-blocksbynode", "lastblock+node-cleanup"} and ("affinity-moved" in tags or "affinity-to-other" in tags):
         return KEY_AFF
-    if failing <= {"books-blocksbynode", "lastblock", "handles"} and ("affinity-moved" in tags or "affinity-to-other" in tags):
+    if failing <= {"books-blocksbynode", "lastblock+node-cleanup", "handles"} and ("affinity-moved" in tags or "affinity-to-other" in tags):
         return KEY_AFF        # both known classes in one history
     return None
 
@@ -74,6 +74,8 @@ CFG = dict(
          "re-allocate in place with a new sequence number, affinity removed / moved / non-host, delete, re-delivery, 10% of "
          "updates withheld), pods created / deleted / rescheduled / evicted / without IPs in the API server and the informer "
          "cache SEPARATELY (lag), Kubernetes nodes and Calico nodes (datastore and syncer separately) deleted and re-created, "
+         "in 40% of the cases one Calico node is NOT a Kubernetes node (no k8s OrchRef, cached as \"\" by the syncer) and owns "
+         "tunnel addresses and blocks, nodes occasionally change kind, 3 scripted histories around such a node, "
          "pod deletion events, full-scan requests, time steps around the grace periods (60 s, 900 s, 0, unset), GC syncs at "
          "arbitrary points; every input is applied synchronously to the REAL IPAMController (handleUpdate / syncIPAM) with a "
          "recording IPAM client, the fake clientset, real informer indexers and a virtual clock (testing/synctest); observed "
@@ -86,7 +88,9 @@ CFG = dict(
              "the model under some iteration order of confirmedLeaks / emptyBlocks)",
              "Go driver harness/C23 (overlay, tag verif), the fake Kubernetes clientset, client-go indexers, testing/synctest"],
     assumptions=["KubeVirt VM/VMI allocations, IP cooldown (ReleasedAt / garbageCollectColdIPs), IP pools and metrics, flannel "
-                 "migration labels, non-Kubernetes Calico nodes and API errors are not modelled (generator excludes them): partial",
+                 "migration labels and API errors other than ErrorNotKubernetes are not modelled (generator excludes them): partial",
+                 "a Calico node that is not a Kubernetes node is alive as long as it exists in the datastore (the syncer cache is "
+                 "trusted only when it carries a Kubernetes node name)",
                  "the IPAM client releases everything it is asked to (no partial ReleaseIPs failures)",
                  "the node attribute of an allocation id (handle/address) does not change while the id is tracked",
                  "block CIDRs do not overlap; names are modelled by numbers",
